@@ -7,7 +7,7 @@
    That the code does stay within 30 ns, and round-trips within 20 ns, is decided by correspondence: the Flocq model
    (Model/EtTdb.v, parametrised by the sine) is compared bit for bit with the code, and the code with a 10^-36
    fixed-point evaluation of the closed forms, on generated instants over +/-10 000 years. See DESIGN.md. *)
-From Coq Require Import Reals.
+From Coq Require Import Reals Lra.
 From HF Require Import GenConsts GenLeap GenEtTdb EtTdbSpec EtTdbP.
 Open Scope R_scope.
 
@@ -41,3 +41,9 @@ Proof. exact (delta_insensitive delta_tdb_R L_TDB L_TDB_small delta_tdb_lipschit
 Theorem C07_code_constants_are_kernel_constants :
   NAIF_K_bits = NAIF_FILE_K_bits /\ NAIF_EB_bits = NAIF_FILE_EB_bits /\ NAIF_M0_bits = NAIF_FILE_M0_bits /\ NAIF_M1_bits = NAIF_FILE_M1_bits.
 Proof. repeat split; reflexivity. Qed.
+
+(* the hypotheses of the order theorems are satisfiable: two instants one second apart, each computed exactly *)
+Example C07_nonvacuous :
+  Rabs ((0 + delta_et_R 0) - (0 + delta_et_R 0)) <= 30 / 1000000000 /\ Rabs ((1 + delta_et_R 1) - (1 + delta_et_R 1)) <= 30 / 1000000000 /\
+  100 / 1000000000 < 1 - 0.
+Proof. rewrite !Rminus_eq_0, Rabs_R0. repeat split; lra. Qed.
